@@ -24,7 +24,7 @@ from twisted.web import http
 from twisted.web._http2 import H2Connection
 from zope.interface import implementer
 
-HEADLINE = "TwistedProps.C29.frames_fit / never_exceeds_windows / delivered_in_order / no_stall / eventually_complete_partial"
+HEADLINE = "TwistedProps.C29.frames_fit / never_exceeds_windows / delivered_in_order / no_stall / stream_body_complete_in_order"
 RULE = ("histories over 1..4 concurrent streams of ops {open stream, Request.write, push-producer write (only while "
         "not paused), register/unregister producer, finish, peer WINDOW_UPDATE (stream / connection), peer SETTINGS "
         "INITIAL_WINDOW_SIZE (up and down, incl. below the bytes already sent => negative windows) and MAX_FRAME_SIZE, "
@@ -40,6 +40,10 @@ ASSUMES = [
     "the peer obeys RFC 7540: windows stay <= 2^31-1, MAX_FRAME_SIZE in [16384, 2^24-1], no RST_STREAM/GOAWAY/PRIORITY, "
     "WINDOW_UPDATE only on streams it still has open",
     "no write after finish; request bodies are empty (GET, END_STREAM on HEADERS)",
+    "stream_body_complete_in_order (termination) is stated for states in which every stream's queued bytes fit its "
+    "stream window and the connection window covers their sum, and for a run of more than Σ(queued bytes + queued "
+    "chunks) loop iterations with no other event in between; against a shut window the loop neither sends nor parks "
+    "(it reschedules itself each reactor turn) — resumption after WINDOW_UPDATE is no_stall / blocked_stream_resumes",
 ]
 TRUSTED = [
     "harness/shims/priority.py replaces the absent `priority` wheel (flat tree, steerable choice); the theorems hold for "
@@ -50,11 +54,16 @@ TRUSTED = [
 MANIFEST = {
     "text": "Lean theorems (TwistedProps/C29.lean) over the executable model of H2Connection._sendPrioritisedData/"
             "writeDataToStream/endRequest/_handleWindowUpdate + H2Stream.windowUpdated/flowControlBlocked for every "
-            "history of writes, WINDOW_UPDATE/SETTINGS frames and scheduler choices; model tied on every run to the real "
-            "H2Connection driven by a real h2 client with task.Clock.",
+            "history of writes, WINDOW_UPDATE/SETTINGS frames and scheduler choices: frames never exceed the windows, the "
+            "loop never dies, written = sent ++ queued, open-window streams are schedulable with an iteration pending, and "
+            "(termination, any scheduler, no fairness assumption) once the windows cover what is queued, more than "
+            "Σ(queued bytes + chunks) iterations end parked with all queues empty, each stream's DATA frames on the wire "
+            "concatenating to exactly its queued bytes and END_STREAM sent iff finished; model tied on every run to the "
+            "real H2Connection driven by a real h2 client with task.Clock.",
     "note": "partial by nature: h2's accounting and the priority shim are trusted; transport back-pressure and pull "
             "producers are outside the model",
-    "technique": "Lean 4 proof (invariants by induction over histories) + differential tie + frame-level oracle",
+    "technique": "Lean 4 proof (invariants by induction over histories; decreasing measure for termination) + "
+                 "differential tie + frame-level oracle",
     "design_ref": "DESIGN.md §7.4 C29",
 }
 
@@ -383,18 +392,32 @@ def oracle(c, out):
         segs = segs[:len(ops)]
     conn, iws, mfs = INITIAL_WINDOW, INITIAL_WINDOW, DEFAULT_MFS
     wins, written, delivered, finished, ended = {}, {}, {}, set(), set()
+    nchunks = {}        # per stream: an upper bound of the number of queued chunks (END_STREAM marker included)
     loop = "s"
     for i, (op, seg) in enumerate(zip(ops, segs)):
         skipped, evs, loop, flags = _parse_seg(seg)
         where = "op %d %r" % (i, op)
+        must_drain = None
         if not skipped:
             k = op[0]
             if k == "req":
                 wins[op[1]], written[op[1]], delivered[op[1]] = iws, b"", b""
+                nchunks[op[1]] = 0
             elif k in ("w", "pw"):
                 written[op[1]] += chunk_bytes(op[2], op[3])
+                nchunks[op[1]] += 1
             elif k == "fin":
                 finished.add(op[1])
+                nchunks[op[1]] += 1
+            elif k == "run":
+                # termination (TwistedProps.C29.stream_body_complete_in_order, evaluated on the implementation with
+                # the oracle's own accounting): every queue fits its stream window, the connection window covers
+                # the sum, and the run is longer than Σ(queued bytes + queued chunks)  ⇒  it ends parked, drained.
+                live = [sid for sid in wins if sid not in ended]
+                pend = {sid: len(written[sid]) - len(delivered[sid]) for sid in live}
+                if (all(pend[sid] <= wins[sid] for sid in live) and sum(pend.values()) <= conn
+                        and op[1] > sum(pend[sid] + nchunks[sid] for sid in live)):
+                    must_drain = sum(pend[sid] + nchunks[sid] for sid in live)
             elif k == "wu":
                 if op[1]:
                     wins[op[1]] += op[2]
@@ -426,6 +449,8 @@ def oracle(c, out):
                 delivered[sid] += exp
                 conn -= n
                 wins[sid] -= n
+                if delivered[sid] == written[sid]:
+                    nchunks[sid] = 1 if sid in finished else 0
             elif e[0] == "E":
                 sid = int(e[1:])
                 if sid not in finished or delivered.get(sid) != written.get(sid) or sid in ended:
@@ -434,6 +459,13 @@ def oracle(c, out):
                 ended.add(sid)
         if loop == "d":
             return {"key": "send-loop-died", "detail": "%s: no iteration of the send loop is pending and it is not parked" % where}
+        if must_drain is not None:
+            left = [sid for sid in wins if sid not in ended and (sid in finished or delivered[sid] != written[sid])]
+            if left or loop != "p":
+                return {"key": "not-drained-within-bound", "detail": "%s: the queues fitted the windows and the run is "
+                        "longer than the backlog bound %d, but afterwards the loop is %s and streams %r are not "
+                        "complete" % (where, must_drain, {"p": "parked", "s": "still scheduled"}.get(loop, loop), left)}
+            _DRAIN_CHECKS[0] += 1
         # "streams blocked on flow control resume when the window opens": no stream with something to send and an
         # open window may be left with the send loop idle, or blocked in the priority tree
         for sid in wins:
@@ -462,12 +494,15 @@ def oracle(c, out):
 # cases
 
 SIDS = [1, 3, 5, 7]
+_DRAIN_CHECKS = [0]     # how often the oracle's termination clause applied (debugging aid)
 BIG = 1 << 20
 
 
-def _settle(rng, sids, nwrites, variant=None):
-    """Open every window (by WINDOW_UPDATE or by SETTINGS), run the loop, finish everything, run the loop."""
-    n = 3 * nwrites + 6 * len(sids) + 12
+def _settle(rng, sids, nwrites, variant=None, drain=0):
+    """Open every window (by WINDOW_UPDATE or by SETTINGS), run the loop, finish everything, run the loop.
+    `drain`: a lower bound for the length of the runs (the bound of stream_body_complete_in_order: queued bytes +
+    queued chunks + 1; the runs stop as soon as the loop parks, so a large bound costs nothing)."""
+    n = max(3 * nwrites + 6 * len(sids) + 12, drain)
     v = rng.randrange(3) if variant is None else variant
     ops = []
     if v == 0:
@@ -499,6 +534,13 @@ def corpus():
         S([["mfs", 20000], ["req", 1], ["w", 1, 0, 50000], ["run", 5]]),
         S([["req", 1], ["reg", 1], ["pw", 1, 0, 65535], ["pw", 1, 1, 1], ["run", 8], ["wu", 1, 1], ["wu", 0, 1], ["run", 3],
            ["pw", 1, 9, 9]]),
+        # the history `demo` of TwistedProps/C29.lean: queues fit the windows exactly, any 9 iterations drain it
+        {"ops": [["req", 1], ["req", 3], ["w", 1, 1, 3], ["w", 3, 4, 2], ["fin", 1], ["iws", 3]]
+                + [["tick", k] for k in (7, 4, 1, 1, 0, 5, 2, 0, 0)]},
+        {"ops": [["req", 1], ["req", 3], ["w", 1, 1, 3], ["w", 3, 4, 2], ["fin", 1], ["iws", 3], ["run", 9]]},
+        # … and one byte short (stream window 2): the loop neither sends the rest nor parks, until WINDOW_UPDATE
+        {"ops": [["req", 1], ["req", 3], ["w", 1, 1, 3], ["w", 3, 4, 2], ["fin", 1], ["iws", 2]]
+                + [["tick", 0]] * 20 + [["wu", 1, 1], ["run", 4]]},
     ]
 
 
@@ -557,7 +599,12 @@ def _case(rng, regime=None):
         if s not in opened:
             ops.append(["req", s])
     nw = sum(1 + op[3] // DEFAULT_MFS for op in ops if op[0] in ("w", "pw"))
-    ops += _settle(rng, sids, nw)
+    # half of the cases: the settle runs are longer than Σ(bytes + chunks) of everything ever written, so the
+    # oracle's termination clause (stream_body_complete_in_order on the real code) applies to them
+    drain = 0
+    if rng.random() < 0.5:
+        drain = sum(op[3] + 1 for op in ops if op[0] in ("w", "pw")) + len(sids) + 1
+    ops += _settle(rng, sids, nw, drain=drain)
     return {"ops": ops, "settle": True}
 
 
